@@ -95,7 +95,9 @@ CLAIMED = {
             "(and history, by induction) outside the ack-to-file window, and the counterexample inside it "
             "(F-10a) is proved. The machine is tied to ledger/pin.py + ledger/protocol.py + both dongle classes "
             "by running the real code in a forked child with os._exit / OSError injected at the same points, "
-            "exhaustively over the start-state x life product.",
+            "exhaustively over the start-state x life product; the same protocol reached through a link repair is "
+            "run through the real _RequestHandler (op line.C10: change attempted => shutdown; file written => "
+            "device acknowledged).",
             "known findings F-10a-*; OS-level atomicity below open/write/close not modelled"),
     "C11": ("Lean theorems: transport classification; ensure_connection is a no-op without a pending repair; "
             "under the common handler guard a communication error yields the device-error code and raises the "
@@ -107,7 +109,9 @@ CLAIMED = {
             "partial: 'bring-up APDUs precede the command APDU' is checked by the oracle on the implementation's "
             "traces and by correspondence, not stated as a theorem; TCP-transport faults are out of scope"),
     "C12": ("Lean theorems: the server class instantiated by comm/server.py (extracted from the source by the "
-            "translator on every run) is socketserver.TCPServer, i.e. the `sequential` kind of the scheduler model; "
+            "translator on every run) is socketserver.TCPServer, i.e. the `sequential` kind of the scheduler model, "
+            "and its handler class processes the request inline and starts no thread / process / task on the way "
+            "(also extracted); "
             "for that kind, for any number of clients and EVERY schedule (arbitrary list of accept/step choices), "
             "the device log stays in contiguous per-request blocks (invariant: at most one running handler; "
             "induction over the schedule); for the handler-per-connection kind the interleaving counter-schedule "
@@ -115,7 +119,8 @@ CLAIMED = {
             "ephemeral port with 2..16 simultaneous client threads and random device-side delays; the oracle "
             "checks contiguous blocks, reply routing, and equality with the model under the observed accept order.",
             "partial by nature: CPython's socketserver/kernel sequential semantics are assumed; the real-socket "
-            "runs are schedule sampling, not proof"),
+            "runs are schedule sampling, not proof; when an obligation breaks, the search also runs slow-request "
+            "schedules longer than every numeric constant of comm/server.py"),
     "C13": ("Lean theorems over generated tables: state selectors, flag offsets and network names are those of "
             "firmware bc_state.h / docs/protocol.md; big-endian difficulty read-back ignores leading zeros and "
             "round-trips below 2^288. The oracle Spec.C13.c13 recomputes the documented reply from the simulated "
@@ -132,7 +137,8 @@ CLAIMED = {
             "genuine Ledger and SGX devices (real keys) are driven through the real DongleAdmin endorsement calls, "
             "ledger_attestation / sgx_attestation do_attestation, save+load and the real verify commands; the "
             "printed values must equal the model's; every single-point alteration of the device's answers or the "
-            "root must end in an error.",
+            "root must end in an error; PEM loading of the root / chain (Admin/Pem.lean) is run against "
+            "get_root_of_trust on files whose base64 body ends in every alphabet character.",
             "partial: 'any alteration is refused' rests on unforgeability — exercised with real keys (a test), "
             "not proved; the interactive part of do_onboard is covered by C18"),
     "C16": ("Lean theorems: the sanity walk of _parse (the unbounded `while True` with a visited list) never needs "
